@@ -4,8 +4,8 @@ SPECIFICATION Spec
 CONSTANTS
   Mutation = "noSepAfterName"
   NilDictIsNull = TRUE
-  WriterAddsLength = FALSE
-  WriterEscapesKeys = FALSE
+  WriterAddsLength = TRUE
+  WriterEscapesKeys = TRUE
   OpKinds = {"q", "cm", "w", "Tf", "Tj", "TJ", "'", "dq", "BDC", "B", "B*", "BT", "d", "sc", "unk", "img", "imgE"}
   MaxOps = 3
   DataAlphabet = {69, 73, 32, 10, 13, 120}
